@@ -22,6 +22,10 @@ def check(ctx):
             lines.append("Ser A %d %d" % (i, rng.randrange(1, 2 ** 31)))
         for i in range(NB):
             lines.append("Ser B %d %d" % (i, rng.randrange(1, 2 ** 31)))
+    # encodings of 64 KiB and more: strings at the top of the 16-bit length field (framework A types that hold a string)
+    for rep in range(6 if ctx.thorough else 2):
+        for i in (10, 17, 18, 19, 21):
+            lines.append("Ser A %d %d big" % (i, rng.randrange(1, 2 ** 31)))
     script = []
     for i, ln in enumerate(lines):
         if i % 100 == 0: script.append("R")
@@ -36,7 +40,7 @@ def check(ctx):
         "scalars are compared as their native byte image (little-endian host); floats as bit images",
         "truncated decodes (framework B, bounded storage reader) are executed for every prefix of the encoding from exactly sized heap copies, for types with at most one level of variable-length nesting (a garbage count at depth d may loop 65535^d times); only memory safety is required of them (ASan)",
     ]
-    return ctx.finish(rule="28 concrete types of framework A and 20 of framework B x random values (empty containers, embedded NULs, lengths around 255/256) ; bytes, decoded value, consumed length, concatenated decode judged against Serialize.tla; every truncation decoded under ASan")
+    return ctx.finish(rule="28 concrete types of framework A and 20 of framework B x random values (empty containers, embedded NULs, lengths around 255/256, strings of 32768..65535 bytes) ; bytes, decoded value, consumed length, concatenated decode judged against Serialize.tla; every truncation decoded under ASan")
 
 
 def replay(ctx, path):
